@@ -50,7 +50,7 @@ def relayout_note(rng, ast):
 def doc_worker(kp, job):
     seed, idx = job
     rng = random.Random(seed * 15485863 + idx)
-    g = docs.gen_doc(rng)
+    g = docs.gen_doc(rng, early_end=(0.25 if idx % 4 == 1 else 0.0))
     text = g.text
     bad = docs.bad_cells(kp, text)
     records = []
